@@ -496,6 +496,19 @@ def run(ctx):
             ctx.covered("lazy_variant", vname)
         except Exception as e:
             ctx.violation("lazy == eager", ctx.exc_witness(e, **desc()), mechanism="lazy sample raises (%s)" % vname)
+        # a lazy sample WITHOUT any column stored beside it (no weights) iterated in more than 1000 batches (1.5 million events at the
+        # default batch size look the same): every batch must arrive
+        try:
+            n_big = int(rng.integers(1100, 1600))
+            arr_big = rng.normal(size=n_big)
+            lz_big = D.LazyCall(lambda x_: {"a": x_["a"] * 2.0}, {"a": arr_big})
+            parts = list(D.data_split(lz_big, 1))
+            got_big = np.concatenate([np.asarray(p_["a"]).reshape((-1,)) for p_ in parts]) if parts else np.zeros(0)
+            ctx.check("lazy batches == eager", len(parts) == n_big and np.array_equal(got_big, arr_big * 2.0),
+                      lambda: {"n_events": n_big, "batch": 1, "batches_returned": len(parts), "columns_beside_the_sample": []},
+                      mechanism="lazy sample without extra columns iterated in more than 1000 batches")
+        except Exception as e:
+            ctx.violation("lazy batches == eager", ctx.exc_witness(e), mechanism="lazy sample without extra columns raises")
         # a bare LazyFile (memory-mapped input without a preprocessor) split twice with the same batch size
         try:
             n = int(rng.integers(5, 12))
